@@ -218,7 +218,7 @@ def s_sim(draw, max_steps=40):
     run = G.s_run(draw, mdl, min_steps=5, max_steps=max_steps)
     T = U.si('TimeInterval', *run['T'])
     rules = []
-    for _ in range(draw(st.integers(1, 4))):
+    for _ in range(draw(st.integers(0, 4))):
         if draw(st.integers(0, 3)) == 0:
             vals = draw(st.lists(_stub_vals, min_size=1, max_size=6))
             if draw(st.booleans()):
@@ -231,6 +231,9 @@ def s_sim(draw, max_steps=40):
                           'value': G._duty(draw(st.one_of(st.floats(-1, 1), st.sampled_from([1, -1, 0]))))})
     case['control'] = rules
     case['history'] = [dict(run, control=True)]
+    if draw(st.integers(0, 2)) == 0:
+        # a preset duty cycle: with a motor control attached it must give way to the arbitration from the first instant
+        case['motor']['pwm0'] = draw(st.sampled_from([0.5, -0.5, 0.3, -1, 0]))
     return case
 
 
